@@ -76,9 +76,25 @@ fn run<B: FullBackend>(m: &poulpy_hal::layouts::Module<B>, c: &Case) -> Result<(
             }
         }
     }
+    // decompression into a receiver with fewer rows gives the first rows of the full expansion
+    if let Some((rows, part)) = &cmp.partial {
+        if part.len() > cmp.cells.len() || part.iter().zip(cmp.cells.iter()).any(|(x, y)| x.raw() != y.raw()) {
+            return Err(fail("partial-receiver-differs", format!("decompression into a receiver of {rows} of the {} rows differs from the first rows of the full decompression", p.dnum)));
+        }
+    }
+    // scalar metadata (Galois element) survives compression, serialisation and decompression
+    if cmp.meta.windows(2).any(|w| w[0] != w[1]) || std.meta.windows(2).any(|w| w[0] != w[1]) || cmp.meta.last() != std.meta.last() {
+        return Err(fail("metadata-differs", format!("Galois element: requested / compressed / decompressed values {:?} (standard: {:?})", cmp.meta, std.meta)));
+    }
     let mut cl = vec![kind, c.be.name()];
     if c.via_serde {
         cl.push("via_serialisation");
+    }
+    if cmp.partial.as_ref().map(|(r, _)| *r < p.dnum as usize).unwrap_or(false) {
+        cl.push("receiver_with_fewer_rows");
+    }
+    if cmp.meta.last().map(|g| *g < 0).unwrap_or(false) {
+        cl.push("negative_galois_element");
     }
     if cmp.cells.len() >= 2 {
         cl.push("multi_cell");
@@ -275,4 +291,4 @@ pub fn replay(ctx: &Ctx, sub: &str, case: &serde_json::Value) -> i32 {
     ctx.replay_case::<Case, _>(sub, case, test)
 }
 
-pub const RULE: &str = "cases = (backend, compressed layout in {GLWE, GGLWE, GGSW, GLWE switching key, automorphism key, tensor key, GGLWE-to-GGSW key, blind-rotation key (CGGI; LWE dimension 1..6, binary block / probability / fixed-weight LWE secret; its GGSWs are read back through the public serialisation)}, N 8..128, radix 2..40 inside the backend domain, ranks 1..3 (in/out), dnum 1..3, dsize 1..2, every secret distribution, three noise settings, generated sk/xa/xe/pt seeds, with and without a write_to/read_from round trip of the compressed object). Oracle: per cell, masks == fill_uniform from Source::new(stored seed) in column order (bit exact); exact phase == phase of the standard encryption's cell under the same error seed (exact torus equality: same plaintext, same error sample); digits normalised; decompression identical after serialisation; bytes identical on a second backend of the other family. non-trivial = at least two cells or rank >= 2. Sub-check lwe_compressed_equals_standard: (backend, LWE dimension 1..700, radix 2..40, 1..5 limbs, k residue, secret distribution, noise, seed): the compressed form (seed, body) of the standard lwe_encrypt_sk run with mask stream Source::new(seed), assembled through the public stream format, must decompress (into a garbage-filled receiver) to that ciphertext bit for bit, also after a serialisation round trip and on a second backend; non-trivial = dimension >= 2.";
+pub const RULE: &str = "cases = (backend, compressed layout in {GLWE, GGLWE, GGSW, GLWE switching key, automorphism key, tensor key, GGLWE-to-GGSW key, blind-rotation key (CGGI; LWE dimension 1..6, binary block / probability / fixed-weight LWE secret; its GGSWs are read back through the public serialisation)}, N 8..128, radix 2..40 inside the backend domain, ranks 1..3 (in/out), dnum 1..3, dsize 1..2, every secret distribution, three noise settings, generated sk/xa/xe/pt seeds, with and without a write_to/read_from round trip of the compressed object). For the GGLWE-like layouts the compressed object is also decompressed into a receiver with fewer rows (admitted: res.dnum() <= other.dnum()), and automorphism keys use any odd Galois element in (-2N, 2N) whose value must survive compression, serialisation and decompression. Oracle: per cell, masks == fill_uniform from Source::new(stored seed) in column order (bit exact); exact phase == phase of the standard encryption's cell under the same error seed (exact torus equality: same plaintext, same error sample); digits normalised; decompression identical after serialisation; bytes identical on a second backend of the other family. non-trivial = at least two cells or rank >= 2. Sub-check lwe_compressed_equals_standard: (backend, LWE dimension 1..700, radix 2..40, 1..5 limbs, k residue, secret distribution, noise, seed): the compressed form (seed, body) of the standard lwe_encrypt_sk run with mask stream Source::new(seed), assembled through the public stream format, must decompress (into a garbage-filled receiver) to that ciphertext bit for bit, also after a serialisation round trip and on a second backend; non-trivial = dimension >= 2.";
